@@ -216,7 +216,12 @@ func (s *streamGRPC) SendHeader(md metadata.MD) error {
 	if err := s.isDone(); err != nil {
 		return err
 	}
+	return s.sendHeader(md)
+}
 
+// sendHeader is SendHeader without the context check: the final status has
+// to be written even when the deadline of the call has expired.
+func (s *streamGRPC) sendHeader(md metadata.MD) error {
 	if s.sentHeader {
 		return fmt.Errorf("already sent headers")
 	}
@@ -576,9 +581,7 @@ func (m *Mux) serveGRPC(w http.ResponseWriter, r *http.Request) {
 
 	herr := hd.handler(&m.opts, stream)
 	if !stream.sentHeader {
-		if err := stream.SendHeader(nil); err != nil {
-			return // ctx canceled
-		}
+		stream.sendHeader(nil) //nolint
 	}
 	flusher.Flush()
 	r.Body.Close()
